@@ -29,7 +29,23 @@
    histories (put / alter / get / scan) and judges what the real code did
    (NeedleLayoutTrace.tla).  The model also shows that the format cannot
    represent metadata of an empty blob (RoundTripIffRepresentable): the named
-   deviation C02-empty-data-drops-meta. *)
+   deviation C02-empty-data-drops-meta.
+
+   How a blob ENTERS a record (bottom part, "upload request -> blob"): an upload
+   is an HTTP request - POST with one multipart part or PUT with a raw body; the
+   path ends in <key hex><cookie, 8 hex>[_<delta>][.<ext>]; ts (seconds), ttl
+   (<count><unit>) and cm in the query; Seaweed-<name> headers are the pairs;
+   Content-Type / Content-Encoding of the part (POST) or of the request (PUT).
+   ReqRel(q, nd, pm) relates a request to the needle built from it, field by
+   field, and says nothing where the statement is silent (names and mimes of 256
+   bytes and more, pairs whose JSON text reaches 64 KiB, ts beyond 5 bytes,
+   cm on a PUT, a mime the name's extension implies).  ReqLaws is model-checked
+   over ReqU (every request that differs from a base request in at most two
+   dimensions): the relation is satisfiable (the ideal needle of a request is
+   related to it), tight (a needle that differs from the ideal one in a
+   determined field is not), inside the domain of the statement, and the ideal
+   needle round-trips through the layout exactly when it is representable.  The
+   same TLC run emits every element of ReqU as a script line (EmitReq). *)
 EXTENDS Integers, Sequences, FiniteSets, TLC, Json
 CONSTANTS MaxOps, Level
 VARIABLES ver, start, file, recs, hist
@@ -150,7 +166,168 @@ LawBlobs == {Blob(f + x, dn, nn, mn, pn, 1) : f \in GatingFlags, x \in (IF Level
 GenBlobs == {Blob(0, 0, 0, 0, 0, 1), Blob(2, 0, 1, 0, 0, 2), Blob(0, 1, 0, 0, 0, 3), Blob(62, 3, 2, 1, 2, 4), Blob(129, 8, 0, 0, 0, 5)}
           \cup (IF Level = 1 THEN {} ELSE {Blob(6, 4, 3, 3, 0, 6), Blob(56, 12, 0, 0, 1, 7)})
 
-Init == ver \in {1, 2, 3} /\ start \in (IF Level = 1 THEN {8} ELSE {0, 8}) /\ file = Rep(0, start) /\ recs = <<>> /\ hist = <<>>
+(* ------------------------------------------------------------ upload request -> blob *)
+(* A request q: [method, fid = [key, ck, delta, ext] (code points), data = [n, h], name = [n, h, b],
+   ct = [n, h, b], pairs = sequence of [name (code points), v = [n, h]], ts = [has, v (8 bytes)],
+   ttl = [has, c, u (code point of the unit)], ce, cm].  A needle nd: [cookie, id, flags, data, name,
+   mime, pairs = [n, h], lm (8 bytes), ttl = <<count, unit>>]; pm = [ok, m]: the needle's pairs decoded
+   as a JSON object, m = sequence of [name, v = [n, h]].  h is a content token (judge) or the bytes
+   themselves (model); contents are equal iff (n, h) are. *)
+Front(s) == SubSeq(s, 1, Len(s) - 1)
+RECURSIVE StripLeading(_, _)
+StripLeading(s, x) == IF s # <<>> /\ s[1] = x THEN StripLeading(Tail(s), x) ELSE s
+RECURSIVE NumVal(_)
+NumVal(s) == IF s = <<>> THEN 0 ELSE NumVal(Front(s)) * 10 + (s[Len(s)] - 48)   \* decimal digits, Len(s) <= 4
+HexVal(c) == IF c \in 48..57 THEN c - 48 ELSE IF c \in 97..102 THEN c - 87 ELSE IF c \in 65..70 THEN c - 55 ELSE -1
+RECURSIVE UnHex(_)     \* even number of hex characters -> bytes
+UnHex(cs) == IF cs = <<>> THEN <<>> ELSE <<HexVal(cs[1]) * 16 + HexVal(cs[2])>> \o UnHex(SubSeq(cs, 3, Len(cs)))
+RECURSIVE AddC(_, _)   \* big-endian bytes + small number
+AddC(bs, c) == IF bs = <<>> THEN <<>> ELSE LET x == bs[Len(bs)] + c IN AddC(Front(bs), x \div 256) \o <<x % 256>>
+RECURSIVE Carry(_, _)
+Carry(bs, c) == IF bs = <<>> THEN c ELSE Carry(Front(bs), (bs[Len(bs)] + c) \div 256)
+
+Same(x, y) == x.n = y.n /\ x.h = y.h
+(* a field guarded by a flag bit holds `want` (an empty field may also simply be absent) *)
+FieldIs(has, fld, want) == IF want.n = 0 THEN ~has \/ fld.n = 0 ELSE has /\ Same(fld, want)
+NoField == [n |-> 0]
+
+DataOk(q, nd) == Same(nd.data, q.data)
+(* the file name of the multipart part; a raw body has none; 256 bytes and more: statement silent *)
+WantName(q) == IF q.method = "POST" THEN q.name ELSE NoField
+NameOk(q, nd) == WantName(q).n > 255 \/ FieldIs(HasName(nd.flags), nd.name, WantName(q))
+(* the content type.  It may be left out where a reader can do without it: the default type, a chunk
+   manifest (its own reader), a name whose extension may imply it (all extensions except made-up ones
+   that no mime table knows) *)
+OctetStream == <<97,112,112,108,105,99,97,116,105,111,110,47,111,99,116,101,116,45,115,116,114,101,97,109>>
+LastDot(s) == IF \E i \in 1..Len(s) : s[i] = 46 THEN CHOOSE i \in 1..Len(s) : s[i] = 46 /\ \A j \in (i + 1)..Len(s) : s[j] # 46 ELSE 0
+ExtOf(s) == IF LastDot(s) > 1 THEN SubSeq(s, LastDot(s), Len(s)) ELSE <<>>
+UnknownExts == {<<46, 113, 55, 122, 120>>}             \* ".q7zx"
+MimeOpen(q) == \/ q.ct.n = 0 \/ q.ct.b = OctetStream
+               \/ q.method = "POST" /\ (q.cm \/ (ExtOf(q.name.b) # <<>> /\ ExtOf(q.name.b) \notin UnknownExts))
+MimeOk(q, nd) == \/ q.ct.n > 255
+                 \/ FieldIs(HasMime(nd.flags), nd.mime, q.ct)
+                 \/ MimeOpen(q) /\ FieldIs(HasMime(nd.flags), nd.mime, NoField)
+(* the Seaweed-* headers: stored as a JSON object name -> value as long as its text stays below 64 KiB *)
+RECURSIVE SumPairs(_, _)
+SumPairs(ps, k) == IF k = 0 THEN 0 ELSE SumPairs(ps, k - 1) + Len(ps[k].name) + ps[k].v.n + 5
+JsonLen(ps) == IF ps = <<>> THEN 0 ELSE 1 + Len(ps) + SumPairs(ps, Len(ps))     \* {"name":"value",...}
+PairSet(ps) == {[name |-> ps[k].name, n |-> ps[k].v.n, h |-> ps[k].v.h] : k \in 1..Len(ps)}
+PairsOk(q, nd, pm) ==
+  IF q.pairs = <<>> THEN ~HasPairs(nd.flags) \/ nd.pairs.n = 0
+  ELSE \/ JsonLen(q.pairs) > 65535
+       \/ /\ HasPairs(nd.flags) /\ nd.pairs.n \in 1..65535 /\ pm.ok
+          /\ Len(pm.m) = Len(q.pairs) /\ PairSet(pm.m) = PairSet(q.pairs)
+(* ts = seconds; absent or 0: the time of the upload (not judged); beyond 5 bytes: statement silent *)
+TsUsable(q) == q.ts.has /\ q.ts.v # Rep(0, 8) /\ SubSeq(q.ts.v, 1, 3) = <<0, 0, 0>>
+LmOk(q, nd) == TsUsable(q) => (HasLm(nd.flags) /\ nd.lm = q.ts.v)
+UnitOfChar(c) == CASE c = 109 -> 1 [] c = 104 -> 2 [] c = 100 -> 3 [] c = 119 -> 4 [] c = 77 -> 5 [] c = 121 -> 6 [] OTHER -> 0
+TtlValid(q) == q.ttl.c \in 0..255 /\ UnitOfChar(q.ttl.u) # 0
+TtlOk(q, nd) ==
+  LET eff == IF HasTtl(nd.flags) THEN nd.ttl ELSE <<0, 0>> IN
+  IF q.ttl.has /\ q.ttl.c > 0 THEN TtlValid(q) => eff = <<q.ttl.c, UnitOfChar(q.ttl.u)>>
+  ELSE eff[1] = 0                                                  \* no ttl, or a count of 0: none
+CompressedOk(q, nd) == Bit(nd.flags, 1) = (q.ce = "gzip")          \* declared gzip, nothing else
+ManifestOk(q, nd) == IF q.method = "POST" THEN Bit(nd.flags, 128) = q.cm ELSE (~q.cm => ~Bit(nd.flags, 128))
+(* the file id in the path: key + delta, cookie; deltas of more than 4 significant digits and sums beyond 2^64 open *)
+KeyBytes(f) == UnHex(Rep(48, 16 - Len(f.key)) \o f.key)
+DeltaSig(f) == StripLeading(f.delta, 48)
+FidDetermined(f) == Len(DeltaSig(f)) <= 4 /\ Carry(KeyBytes(f), NumVal(DeltaSig(f))) = 0
+FidOk(q, nd) == /\ nd.cookie = UnHex(q.fid.ck)
+                /\ FidDetermined(q.fid) => nd.id = AddC(KeyBytes(q.fid), NumVal(DeltaSig(q.fid)))
+ReqRel(q, nd, pm) == /\ DataOk(q, nd) /\ NameOk(q, nd) /\ MimeOk(q, nd) /\ PairsOk(q, nd, pm) /\ LmOk(q, nd) /\ TtlOk(q, nd)
+                     /\ CompressedOk(q, nd) /\ ManifestOk(q, nd) /\ FidOk(q, nd)
+
+(* --- the requests of the model: explicit bytes, h = the bytes --- *)
+Fld(s) == [n |-> Len(s), h |-> s, b |-> s]
+Fl(s) == [n |-> Len(s), h |-> s]
+RECURSIVE JoinPairs(_, _)
+JoinPairs(ps, k) ==      \* "name":"value" entries joined by commas
+  IF k > Len(ps) THEN <<>>
+  ELSE (IF k > 1 THEN <<44>> ELSE <<>>) \o <<34>> \o ps[k].name \o <<34, 58, 34>> \o ps[k].v.h \o <<34>> \o JoinPairs(ps, k + 1)
+JsonOf(ps) == IF ps = <<>> THEN <<>> ELSE <<123>> \o JoinPairs(ps, 1) \o <<125>>
+IsPost(q) == q.method = "POST"
+(* the needle an upload is meant to become (one choice where ReqRel leaves a choice) *)
+IdealName(q) == IF IsPost(q) /\ q.name.n <= 255 THEN q.name.b ELSE <<>>
+IdealMime(q) == IF q.ct.n <= 255 /\ q.ct.b # OctetStream /\ ~(IsPost(q) /\ q.cm) THEN q.ct.b ELSE <<>>
+IdealFlags(q) ==
+    (IF q.ce = "gzip" THEN 1 ELSE 0) + (IF IdealName(q) # <<>> THEN 2 ELSE 0) + (IF IdealMime(q) # <<>> THEN 4 ELSE 0) + 8
+  + (IF q.ttl.has /\ q.ttl.c > 0 THEN 16 ELSE 0) + (IF q.pairs # <<>> THEN 32 ELSE 0) + (IF IsPost(q) /\ q.cm THEN 128 ELSE 0)
+IdealBlob(q) ==
+  [cookie |-> UnHex(q.fid.ck), id |-> AddC(KeyBytes(q.fid), NumVal(DeltaSig(q.fid))), flags |-> IdealFlags(q),
+   data |-> q.data.h, name |-> IdealName(q), mime |-> IdealMime(q),
+   lm |-> IF TsUsable(q) THEN SubSeq(q.ts.v, 4, 8) ELSE <<0, 96, 0, 0, 1>>,
+   ttl |-> IF q.ttl.has /\ q.ttl.c > 0 THEN <<q.ttl.c, UnitOfChar(q.ttl.u)>> ELSE <<0, 0>>,
+   pairs |-> JsonOf(q.pairs), ts |-> <<0, 1, 2, 3, 4, 5, 6, 7>>]
+NeedleOf(b) == [cookie |-> b.cookie, id |-> b.id, flags |-> b.flags, data |-> Fl(b.data), name |-> Fl(b.name), mime |-> Fl(b.mime),
+                pairs |-> Fl(b.pairs), lm |-> <<0, 0, 0>> \o b.lm, ttl |-> b.ttl]
+
+F1 == [key |-> <<48, 49>>, ck |-> <<100, 101, 97, 100, 98, 101, 101, 102>>, delta |-> <<>>, ext |-> <<>>]
+ReqBase == [method |-> "POST", fid |-> F1, data |-> Fl(Fill(208, 3)), name |-> Fld(<<97>>), ct |-> Fld(<<116, 47, 112>>),
+            pairs |-> <<>>, ts |-> [has |-> FALSE, v |-> Rep(0, 8)], ttl |-> [has |-> FALSE, c |-> 0, u |-> 109], ce |-> "", cm |-> FALSE]
+P1 == [name |-> <<65, 98>>, v |-> Fl(<<118, 49>>)]
+P2 == [name |-> <<88, 45, 89, 50>>, v |-> Fl(<<>>)]
+ReqVals ==
+  [method |-> {"POST", "PUT"},
+   fid |-> {F1, [F1 EXCEPT !.key = <<49>>, !.delta = <<50>>, !.ext = <<106, 112, 103>>],
+            [F1 EXCEPT !.key = <<65, 98>>, !.delta = <<57, 57, 57, 57>>],
+            [F1 EXCEPT !.key = Rep(48, 13) \o <<49, 102, 102>>, !.delta = <<48, 48, 49>>, !.ck = <<48, 48, 48, 48, 48, 48, 48, 49>>]}
+           \cup (IF Level = 1 THEN {} ELSE {[F1 EXCEPT !.key = Rep(102, 15) \o <<101>>, !.delta = <<49>>, !.ext = <<122>>],
+                                            [F1 EXCEPT !.ext = <<106, 112, 103>>]}),
+   data |-> {Fl(<<>>), Fl(Fill(208, 1)), Fl(Fill(208, 3)), Fl(Fill(208, 9))},
+   name |-> {Fld(<<>>), Fld(<<97>>), Fld(<<97, 46, 116, 120, 116>>), Fld(<<98, 46, 113, 55, 122, 120>>), Fld(<<46, 104>>),
+             Fld(Rep(110, 255)), Fld(Rep(110, 256))} \cup (IF Level = 1 THEN {} ELSE {Fld(Rep(110, 254)), Fld(Rep(110, 250) \o <<46, 113, 55, 122, 120>>)}),
+   ct |-> {Fld(<<>>), Fld(<<116, 47, 112>>), Fld(OctetStream), Fld(<<120, 47>> \o Rep(99, 253)), Fld(<<120, 47>> \o Rep(99, 254))},
+   pairs |-> {<<>>, <<P1>>, <<P1, P2>>},
+   ts |-> {[has |-> FALSE, v |-> Rep(0, 8)], [has |-> TRUE, v |-> Rep(0, 8)], [has |-> TRUE, v |-> <<0, 0, 0, 0, 0, 1, 2, 3>>],
+           [has |-> TRUE, v |-> <<0, 0, 0>> \o Rep(255, 5)], [has |-> TRUE, v |-> <<0, 0, 1, 0, 0, 0, 0, 0>>]},
+   ttl |-> {[has |-> FALSE, c |-> 0, u |-> 109], [has |-> TRUE, c |-> 0, u |-> 109], [has |-> TRUE, c |-> 3, u |-> 109],
+            [has |-> TRUE, c |-> 255, u |-> 121]} \cup (IF Level = 1 THEN {} ELSE {[has |-> TRUE, c |-> 1, u |-> u] : u \in {104, 100, 119, 77}}),
+   ce |-> {"", "gzip", "br"} \cup (IF Level = 1 THEN {} ELSE {"identity", "deflate"}),
+   cm |-> {FALSE, TRUE}]
+ReqDims == DOMAIN ReqVals
+(* every request that differs from the base request in at most two dimensions *)
+ReqU == {[[ReqBase EXCEPT ![p[1]] = p[2]] EXCEPT ![p[3]] = p[4]] :
+           p \in UNION {{<<d1, v1, d2, v2>> : v1 \in ReqVals[d1], v2 \in ReqVals[d2]} : d1 \in ReqDims, d2 \in ReqDims}}
+
+(* a needle that differs from the ideal one in a field the request determines is not related to the request *)
+Tight(q) ==
+  LET b == IdealBlob(q)
+      nd == NeedleOf(b)
+      pm == [ok |-> TRUE, m |-> q.pairs]
+      no(x) == ~ReqRel(q, x, pm)
+  IN /\ no([nd EXCEPT !.data = Fl(b.data \o <<0>>)])
+     /\ no([nd EXCEPT !.flags = IF Bit(@, 1) THEN @ - 1 ELSE @ + 1])
+     /\ no([nd EXCEPT !.cookie = AddC(@, 1)])
+     /\ (FidDetermined(q.fid) => no([nd EXCEPT !.id = AddC(@, 1)]))
+     /\ (IsPost(q) \/ ~q.cm => no([nd EXCEPT !.flags = IF Bit(@, 128) THEN @ - 128 ELSE @ + 128]))
+     /\ (IsPost(q) /\ q.name.n <= 255 => no([nd EXCEPT !.name = Fl(b.name \o <<120>>), !.flags = IF Bit(@, 2) THEN @ ELSE @ + 2]))
+     /\ (q.ct.n <= 255 => no([nd EXCEPT !.mime = Fl(b.mime \o <<120>>), !.flags = IF Bit(@, 4) THEN @ ELSE @ + 4]))
+     /\ (q.ct.n \in 1..255 /\ ~MimeOpen(q) => no([nd EXCEPT !.flags = IF Bit(@, 4) THEN @ - 4 ELSE @]))
+     /\ (TsUsable(q) => no([nd EXCEPT !.lm = AddC(@, 1)]))
+     /\ (q.ttl.has /\ q.ttl.c > 0 => no([nd EXCEPT !.flags = @ - 16]) /\ no([nd EXCEPT !.ttl = <<@[1], (@[2] % 6) + 1>>]))
+     /\ (~(q.ttl.has /\ q.ttl.c > 0) => no([nd EXCEPT !.flags = @ + 16, !.ttl = <<3, 1>>]))
+     /\ (q.pairs # <<>> => /\ no([nd EXCEPT !.flags = @ - 32])
+                           /\ ~ReqRel(q, nd, [ok |-> TRUE, m |-> Tail(q.pairs)])
+                           /\ ~ReqRel(q, nd, [ok |-> FALSE, m |-> <<>>]))
+ReqLaws(q) ==
+  LET b == IdealBlob(q) IN
+  /\ ReqRel(q, NeedleOf(b), [ok |-> TRUE, m |-> q.pairs])                        \* satisfiable
+  /\ Len(b.name) <= 255 /\ Len(b.mime) <= 255 /\ Len(b.pairs) <= 65535          \* inside the statement's domain
+  /\ Len(b.pairs) = JsonLen(q.pairs)
+  /\ Tight(q)
+  /\ \A v \in {2, 3} : /\ MatchRaw(Encode(b, v), b, v)
+                       /\ (Decode(Encode(b, v), v) = Stored(b, v)) = Representable(b, v)
+(* script form of a model request: long fields as [n, fill] *)
+Wire(x) == IF x.n > 24 /\ x.h = Rep(x.h[1], x.n) THEN [n |-> x.n, fill |-> x.h[1]] ELSE [b |-> x.h]
+ReqOp(q) == [ev |-> "req", method |-> q.method, fid |-> q.fid, data |-> Wire(q.data), name |-> Wire(q.name), ct |-> Wire(q.ct),
+             pairs |-> [k \in 1..Len(q.pairs) |-> [name |-> q.pairs[k].name, v |-> Wire(q.pairs[k].v)]],
+             ts |-> q.ts, ttl |-> q.ttl, ce |-> q.ce, cm |-> q.cm, ats |-> <<0, 1, 2, 3, 4, 5, 6, 7>>]
+
+FileInit == ver \in {1, 2, 3} /\ start \in (IF Level = 1 THEN {8} ELSE {0, 8}) /\ file = Rep(0, start) /\ recs = <<>> /\ hist = <<>>
+(* one more initial state per request of ReqU: nothing happens there, the laws of the request are checked and it is emitted *)
+ReqInit == ver = 3 /\ start = 8 /\ file = Rep(0, 8) /\ recs = <<>> /\ hist \in {<<[ev |-> "reqq", q |-> q]>> : q \in ReqU}
+IsReqState == hist # <<>> /\ hist[1].ev = "reqq"
+Init == FileInit \/ ReqInit
 Log(op) == hist' = Append(hist, op)
 PutOp(b) == [ev |-> "put", cookie |-> b.cookie, id |-> b.id, flags |-> b.flags, data |-> [b |-> b.data], name |-> [b |-> b.name],
              mime |-> [b |-> b.mime], lm |-> b.lm, ttl |-> b.ttl, pairs |-> [b |-> b.pairs], ts |-> b.ts]
@@ -158,7 +335,7 @@ Put(b) == /\ file' = file \o Encode(b, ver)
           /\ recs' = Append(recs, [off |-> Len(file), blob |-> b])
           /\ UNCHANGED <<ver, start>>
 GenNext ==
-  /\ Len(hist) < MaxOps
+  /\ Len(hist) < MaxOps /\ ~IsReqState
   /\ \/ \E b \in GenBlobs : Put(b) /\ Log(PutOp(b))
      \/ \E i \in 1..Len(recs) : UNCHANGED <<ver, start, file, recs>> /\ Log([ev |-> "get", i |-> i])
      \/ \E i \in 1..Len(recs), m \in {1, 128} : \E pos \in {0, Len(recs[i].blob.data) - 1} :
@@ -186,4 +363,6 @@ GridLawsHold == \A v \in {1, 2, 3}, f \in 0..255, dn \in GridData, nn \in GridLe
 (* the two laws above are constant formulas: evaluated in one initial state only *)
 LawsOnce == (hist # <<>> \/ ver # 3 \/ start # 8) \/ (GridLawsHold /\ RoundTripIffRepresentable)
 Emit == Len(hist) < MaxOps \/ PrintT(<<"W", ToJson([ver |-> ver, start |-> start, ops |-> hist])>>)
+ReqLawsHold == IsReqState => ReqLaws(hist[1].q)
+EmitReq == ~IsReqState \/ PrintT(<<"W", ToJson([ver |-> 0, start |-> 8, ops |-> <<ReqOp(hist[1].q)>>])>>)
 =============================================================================
